@@ -61,6 +61,9 @@ pub fn set_counting(on: bool) {
 
 static FUZZ_MODE: AtomicBool = AtomicBool::new(false);
 /// inside a libFuzzer target: no watchdog bookkeeping at all (libFuzzer has its own -timeout)
+pub fn is_fuzz_mode() -> bool {
+    FUZZ_MODE.load(Ordering::Relaxed)
+}
 pub fn set_fuzz_mode() {
     FUZZ_MODE.store(true, Ordering::Relaxed);
     set_counting(false);
@@ -349,6 +352,13 @@ where
             crate::crash::publish(&replay.to_string());
         }
         sh.watch_lazy(std::sync::Arc::new(move || json!({"stream": name, "case": serde_json::to_value(&copy).unwrap_or(Value::Null)})));
+        // API history: one case in eight is preceded by a battery of unrelated library calls
+        if !is_fuzz_mode() {
+            let k = case_key(v);
+            if k % 8 == 0 {
+                crate::prelude::run(k);
+            }
+        }
         // a panic inside the harness/check itself (not guarded library code) is also a failure
         let r = match guard(|| (self.check)(sh, v)) {
             Ok(r) => r,
@@ -500,6 +510,22 @@ fn strat_sample<V>() {}
 /// assertions on); the driver sets VERIF_PROFILE=dbg for the latter
 pub fn is_dbg_profile() -> bool {
     std::env::var("VERIF_PROFILE").map(|v| v == "dbg").unwrap_or(false)
+}
+/// fingerprint of a case (Debug text, FNV-1a): decides which cases get an API-history prelude
+fn case_key<V: Debug>(v: &V) -> u64 {
+    struct Fnv(u64);
+    impl std::fmt::Write for Fnv {
+        fn write_str(&mut self, s: &str) -> std::fmt::Result {
+            for b in s.bytes() {
+                self.0 ^= b as u64;
+                self.0 = self.0.wrapping_mul(0x100000001b3);
+            }
+            Ok(())
+        }
+    }
+    let mut h = Fnv(0xcbf29ce484222325);
+    let _ = std::fmt::write(&mut h, format_args!("{v:?}"));
+    h.0 ^ (h.0 >> 29)
 }
 fn record_all() -> bool {
     static R: std::sync::OnceLock<bool> = std::sync::OnceLock::new();
